@@ -29,18 +29,19 @@ type Func struct {
 }
 
 type Prog struct {
-	Dir     string
-	Fset    *token.FileSet
-	Pkgs    []*packages.Package
-	ByPath  map[string]*packages.Package // short import path -> package
-	Funcs   map[string]*Func
-	ByObj   map[*types.Func]*Func
-	FuncSeq []*Func // deterministic order
-	cfgs    map[*ast.BlockStmt]*cfg.CFG
-	cg      *CallGraph
-	parents map[*ast.File]map[ast.Node]ast.Node
-	Tests   bool
-	GOARCH  string
+	Dir      string
+	Fset     *token.FileSet
+	Pkgs     []*packages.Package
+	ByPath   map[string]*packages.Package // short import path -> package
+	Funcs    map[string]*Func
+	ByObj    map[*types.Func]*Func
+	FuncSeq  []*Func // deterministic order
+	cfgs     map[*ast.BlockStmt]*cfg.CFG
+	cg       *CallGraph
+	domCache map[string]map[string]bool
+	parents  map[*ast.File]map[ast.Node]ast.Node
+	Tests    bool
+	GOARCH   string
 }
 
 func short(s string) string { return strings.ReplaceAll(s, modPrefix, "") }
